@@ -724,6 +724,77 @@ def _public_call(eng, world, rec, rng, smart, stats):
         stats["call_errors"][key] = stats["call_errors"].get(key, 0) + 1
 
 
+class ThreadedFaults:
+    """thread-safe rate injection for the production-style runs: every engine-issued provider call (mutators, download,
+    info_*, listdir, hash/exists, events — wrappers on the provider instances) fails with probability p while `on`; nesting and the history thread's own provider use are tracked per thread.  The
+    provider is not really disconnected (user operations go through the same objects)."""
+
+    READERS = ("info_oid", "info_path", "listdir", "hash_oid", "exists_oid", "exists_path", "events")
+
+    def __init__(self, spec):
+        self.spec = spec
+        self.on = False
+        self.local = threading.local()
+        self.counter = itertools.count()
+        self.fired = {}
+        self.n = 0
+
+    def _exc(self, call):
+        if not self.on or getattr(self.local, "depth", 0) or getattr(self.local, "suppress", 0):
+            return None
+        if self.n >= self.spec.get("max", 40):
+            return None
+        i = next(self.counter)
+        rr = random.Random("%s/%d" % (self.spec["seed"], i))
+        # the event poll is by far the most frequent call: a tenth of the rate there, so that the bounded number of
+        # faults also reaches look-ups, downloads and mutations
+        if rr.random() >= self.spec["p"] * (0.1 if call == "events" else 1.0):
+            return None
+        kind = rr.choice(self.spec["kinds"])
+        if kind == "out_of_space" and call not in ("create", "upload"):
+            kind = "temporary"
+        if kind == "file_name" and call not in ("create", "upload", "rename", "mkdir"):
+            kind = "temporary"
+        self.n += 1
+        key = "%s:%s" % (call, kind)
+        self.fired[key] = self.fired.get(key, 0) + 1
+        if kind == "plain":
+            return Exception("injected plain exception")
+        from . import families_c10 as C10
+        return C10.make_exc(kind)
+
+    def attach(self, eng, world):
+        """one uniform wrapper on the provider instances (outside engine.py's observers): decide, then run the call with
+        everything the provider does on itself marked as nested"""
+        tf = self
+        for side, p in enumerate(world.provs):
+            for name in E.MUTATORS + ("download",) + self.READERS:
+                inner = getattr(p, name)
+
+                def mk(name, inner):
+                    def call(*a, **kw):
+                        exc = tf._exc(name)
+                        if exc is not None:
+                            raise exc
+                        loc = tf.local
+                        loc.depth = getattr(loc, "depth", 0) + 1
+                        try:
+                            return inner(*a, **kw)
+                        finally:
+                            loc.depth -= 1
+                    return call
+                setattr(p, name, mk(name, inner))
+        raw_user = world.user
+
+        def user(side, op):
+            tf.local.suppress = getattr(tf.local, "suppress", 0) + 1
+            try:
+                return raw_user(side, op)
+            finally:
+                tf.local.suppress -= 1
+        world.user = user
+
+
 def run_threaded(case, budget_s=25.0):
     """CloudSync.start() with the real threads; the history is applied from an application thread, other application
     threads call public methods meanwhile.  Returns dict(judgement fields, quiet, views, ...)."""
@@ -737,6 +808,10 @@ def run_threaded(case, budget_s=25.0):
     for p in world.provs:
         _atomic_events(p)
     eng = E.Engine(world, smart=smart, cs_kwargs=dict(sleep=(0.002, 0.002)))
+    tf = None
+    if case.get("faults"):
+        tf = ThreadedFaults(case["faults"])
+        tf.attach(eng, world)
     rec = Recorder(yield_every=case.get("yield_every", 7))
     stats = dict(calls={}, call_errors={}, thread_errors={})
     out = dict(quiet=False, timeout=False, stop_timeout=False, stats=stats)
@@ -773,6 +848,8 @@ def run_threaded(case, budget_s=25.0):
         callers.append(threading.Thread(target=waker, name="app-waker", daemon=True))
         for th in callers:
             th.start()
+        if tf is not None:
+            tf.on = True
         ok = q0
         for act in case["schedule"]:
             if _rt.time() > deadline or not ok:
@@ -784,13 +861,20 @@ def run_threaded(case, budget_s=25.0):
             elif act[0] == "drain":
                 ok = _wait_quiet(eng, rec, deadline, equal=eq) and ok
             elif act[0] == "walk":
-                with Op(rec, entry_label(eng.cs, "walk")):
-                    eng.cs.walk(act[1])
+                try:
+                    with Op(rec, entry_label(eng.cs, "walk")):
+                        eng.cs.walk(act[1])
+                except Exception as e:        # a provider fault surfaced through the public method
+                    key = "CloudSync.walk:%s" % type(e).__name__
+                    stats["call_errors"][key] = stats["call_errors"].get(key, 0) + 1
                 stats["calls"]["CloudSync.walk"] = stats["calls"].get("CloudSync.walk", 0) + 1
             elif act[0] == "forget":
                 with Op(rec, entry_label(eng.cs, "forget")):
                     eng.cs.forget()
                 stats["calls"]["CloudSync.forget"] = stats["calls"].get("CloudSync.forget", 0) + 1
+        if tf is not None:
+            tf.on = False           # the faults stop; what follows is the recovery
+            out["faults_fired"] = dict(tf.fired)
         ok = _wait_quiet(eng, rec, deadline, equal=eq) and ok
         stopflag.set()
         for th in callers[:-1]:
@@ -900,6 +984,13 @@ def run_script(script):
     cs = eng.cs
     rec = Recorder()
     calls = []
+    inj = None
+    if any(st[0] == "fault" for st in script["steps"]):
+        # ["fault", {"side": s, "call": name, "kind": K, "n": 1}]: the next n engine API calls `name` on that side fail;
+        # every engine step then goes through the real Runnable.run loop body (families_c10.Injector.real_step)
+        inj = fault_injector_class()(script)
+        inj.attach(eng, world)
+        inj.set_plan({"rules": []})
 
     def resolve(a):
         if isinstance(a, dict):
@@ -970,10 +1061,18 @@ def run_script(script):
                 eng.sync()
             elif k == "call":
                 call(st[1], list(st[2]) if len(st) > 2 else [])
+            elif k == "fault":
+                inj.plan["rules"].append(dict(st[1], t="next", left=st[1].get("n", 1)))
             else:
                 raise ValueError(k)
     finally:
         CUR = None
+        if inj is not None:
+            rec.faults = dict(injected=len(inj.injected), kinds=sorted(set(f["kind"] for f in inj.injected)),
+                              punts=sum(st.get("punts", 0) or 0 for st in inj.steps),
+                              reconnects=sum(1 for st in inj.steps if st.get("reconnect")),
+                              reauths=sum(1 for st in inj.steps if st.get("reauth")),
+                              cursor_resets=sum(1 for st in inj.steps if st.get("tag_deleted")))
         views = [world.view(0), world.view(1)]
         try:
             eng.stop()
@@ -1192,4 +1291,194 @@ def thr_smart(rng):
                 hash_mult=rng.choice([1, 3, 7, 11]), kind="thr_smart")
 
 
-THR_FAMILIES = {"thr_plain": thr_plain, "thr_forget": thr_forget, "thr_smart": thr_smart}
+def thr_faults(rng):
+    """as thr_plain while 5-20 % of the engine's provider calls fail (temporary, disconnected, token, out of space, invalid
+    name, plain exceptions): the managers' failure handling (punt, commit, backoff) runs on the real threads.  The
+    bracketing drains of the history are waited for with the faults still on (bounded number of faults)."""
+    case = thr_plain(rng)
+    case.update(kind="thr_faults",
+                faults=dict(seed=rng.randrange(1 << 30), p=rng.choice([0.05, 0.1, 0.2]), max=rng.choice([10, 25, 40]),
+                            kinds=rng.choice([["temporary"], ["temporary", "out_of_space", "plain"], ["plain"],
+                                              ["temporary", "disconnected", "token", "out_of_space", "file_name", "plain"]])))
+    return case
+
+
+def thr_smart_faults(rng):
+    case = thr_smart(rng)
+    case.update(kind="thr_smart_faults",
+                faults=dict(seed=rng.randrange(1 << 30), p=rng.choice([0.05, 0.1, 0.2]), max=rng.choice([10, 25]),
+                            kinds=rng.choice([["temporary"], ["temporary", "out_of_space", "plain"], ["plain"]])))
+    return case
+
+
+THR_FAMILIES = {"thr_plain": thr_plain, "thr_forget": thr_forget, "thr_smart": thr_smart, "thr_faults": thr_faults,
+                "thr_smart_faults": thr_smart_faults}
+
+
+# ====================================================================== (iv) provider faults: the error paths
+# The failure handling of the managers (punt of the picked entry, commit, backoff; reconnect / re-authentication /
+# cursor reset of the event managers) only runs when a provider call fails.  harness/families_c10.py has the injection
+# layer (every engine-issued API call is a fault point: mutators, download, info_*, listdir, hash/exists, events and
+# "between two events") and runs each step through the REAL Runnable.run loop body; it is reused here with two more
+# kinds (a plain Exception, a rejected cursor) and a rule that addresses "the next call named X on side S".
+FAULT_KINDS = ("temporary", "disconnected", "token", "token_expired", "out_of_space", "file_name", "plain", "cursor")
+_FAULTY = {}
+
+
+def fault_injector_class():
+    """subclass of families_c10.Injector (built lazily: that module imports cloudsync)"""
+    if "cls" in _FAULTY:
+        return _FAULTY["cls"]
+    from . import families_c10 as C10
+    C10.EXPECT_NOTE.setdefault("plain", None)
+    C10.EXPECT_NOTE.setdefault("cursor", None)
+
+    Base = C10.Injector          # run_faulty swaps the module attribute: keep the real base class
+
+    class FaultInjector(Base):
+        calls_when_lifted = None
+
+        @property
+        def plan(self):
+            return self.__dict__.get("_plan")
+
+        @plan.setter
+        def plan(self, v):
+            if v is None and self.__dict__.get("_plan") is not None:
+                self.calls_when_lifted = sum(self.calls.values())     # run_c10's faults_off sets plan = None
+            self.__dict__["_plan"] = v
+
+        def decide(self, side, call, index, args):
+            if self.plan is not None and not self.suppress:
+                for r in self.plan["rules"]:
+                    if r["t"] == "next" and r.get("left", r.get("n", 1)) > 0 and r["call"] == call and r["side"] in (side, None):
+                        if applies(r["kind"], call):
+                            r["left"] = r.get("left", r.get("n", 1)) - 1
+                            return r["kind"]
+            k = Base.decide(self, side, call, index, args)
+            if k is not None and not applies(k, call):
+                return None
+            return k
+
+        def fire(self, side, call, index, args):
+            self.calls[call] = self.calls.get(call, 0) + 1
+            kind = self.decide(side, call, index, args)
+            if kind is None:
+                return None
+            p = self.world.provs[side]
+            if kind in ("disconnected", "token_expired"):
+                p.disconnect()
+            if kind == "token_expired":
+                self.expired[side] = True
+            rec = dict(index=index - self.plan_base, side=side, call=call, kind=kind,
+                       step=len(self.steps) if self.step is not None else None, in_walk=bool(self.in_walk))
+            self.injected.append(rec)
+            if self.step is not None:
+                self.step["injected"].append(rec)
+            return make_fault(kind)
+
+    def applies(kind, call):
+        if kind == "cursor":
+            return call in ("events", "events_next")
+        if kind == "plain":
+            return True
+        return C10.kind_applies(kind, call)
+
+    def make_fault(kind):
+        if kind == "plain":
+            return Exception("injected plain exception")
+        if kind == "cursor":
+            import cloudsync.exceptions as ex
+            return ex.CloudCursorError("injected rejected cursor")
+        return C10.make_exc(kind)
+    _FAULTY["cls"] = FaultInjector
+    return FaultInjector
+
+
+def run_faulty(case, monitor):
+    """families_c10.run_c10 with the extended injector; returns the RunResult (the injector is in res.extra['c10'])"""
+    from . import families_c10 as C10
+    cls = fault_injector_class()
+    old = C10.Injector
+    C10.Injector = cls
+    try:
+        return C10.run_c10(case, monitor)
+    finally:
+        C10.Injector = old
+
+
+def flt_rate(rng):
+    """clean history; every engine API call fails with probability 2-20 % (mixed kinds incl. plain exceptions and invalid
+    names), faults lifted before every drain"""
+    from . import families_c10 as C10
+    c = C10.with_rate_faults(rng)
+    if rng.random() < 0.5:
+        extra = rng.choice([["plain"], ["file_name"], ["plain", "file_name"], ["cursor"], ["plain", "cursor"]])
+        for a in c["schedule"]:
+            if a[0] == "faults":
+                for r in a[1]["rules"]:
+                    if r["t"] == "rate":
+                        r["kinds"] = list(r["kinds"]) + [k for k in extra if k not in r["kinds"]]
+    return c
+
+
+def flt_path(rng):
+    from . import families_c10 as C10
+    return C10.permanent_path(rng)
+
+
+def flt_walk(rng):
+    from . import families_c10 as C10
+    return C10.walk_faults(rng)
+
+
+def single_fault_base():
+    """the fixed history of the exhaustive single-fault sweep: creations on both sides, an edit, a rename into a folder,
+    a delete, engine steps in between (so that events, look-ups, downloads, creates, uploads, renames and deletes are
+    all fault points)"""
+    fl = E.Flavour(oip=(False, False), cs=(True, True), filt=False)
+    L, R = fl.roots
+    sched = [["user", 0, ["create", L + "/f1.txt", b"one"]], ["intake", 0], ["sync"],
+             ["user", 0, ["write", L + "/d/a.txt", b"edited"]], ["user", 1, ["create", R + "/g1.txt", b"remote"]],
+             ["intake", 0], ["intake", 1], ["sync"], ["sync"],
+             ["user", 0, ["rename", L + "/f1.txt", L + "/d/f2.txt"]], ["user", 0, ["delete", L + "/b.txt"]],
+             ["hook", "steps", 5]]
+    return dict(flavour=fl.key(), base=[["mkdir", L + "/d"], ["create", L + "/d/a.txt", b"alpha"], ["create", L + "/b.txt", b"beta"]],
+                schedule=sched, hash_mult=1,
+                mode=dict(origin=None, check_spec=False, no_conflicted=False, cov_every_step=True))
+
+
+def single_fault_case(i):
+    """case number i of the sweep: call index i // len(FAULT_KINDS), kind FAULT_KINDS[i % len]"""
+    from . import families_c10 as C10
+    k, kind = divmod(i, len(FAULT_KINDS))
+    base = single_fault_base()
+    c = dict(base)
+    c["schedule"] = [["faults", dict(rules=[dict(t="at", index=k, kind=FAULT_KINDS[kind])])]] + list(base["schedule"])
+    c["c10"] = dict(family="single", index=k, kind=FAULT_KINDS[kind])
+    return C10.finish_case(c)
+
+
+def single_fault_calls(monitor):
+    """number of engine API calls (fault points) of the fault-free base run"""
+    from . import families_c10 as C10
+    base = single_fault_base()
+    c = dict(base)
+    c["schedule"] = [["faults", dict(rules=[])]] + list(base["schedule"]) + [["faults_off"]]
+    res = run_faulty(C10.finish_case(c), monitor)
+    inj = res.extra["c10"]
+    return inj.calls_when_lifted
+
+
+FAULT_FAMILIES = {"flt_rate": flt_rate, "flt_path": flt_path, "flt_walk": flt_walk}
+
+
+def observed_faulty(case, monitor):
+    global CUR
+    install()
+    CUR = rec = Recorder()
+    try:
+        res = run_faulty(case, monitor)
+    finally:
+        CUR = None
+    return rec, res
